@@ -115,6 +115,7 @@ func cmdCheck(args []string, repo, spec string, timeout int, verbose bool) int {
 	}
 	c := &Checker{W: w, Prop: ps, Tier: tier, Seed: seed, Timeout: timeout, Dir: dir, Verif: verif, EncOf: map[*Obl]*enc{}}
 	c.selectAndEncode()
+	c.invariantWriters()
 	c.writersObligations()
 	c.ifaceTypeObligations()
 	c.frameObligations()
@@ -362,10 +363,15 @@ func (c *Checker) report(t0 time.Time, verbose bool) int {
 	for _, o := range c.Obls {
 		if o.Class == "reach" {
 			probes++
-			if o.Result == "sat" || o.Result == "unknown" || o.Result == "timeout" {
+			switch o.Result {
+			case "sat", "unknown", "timeout":
 				probesOK++
-			} else {
+			case "unsat":
 				c.engineErr = append(c.engineErr, fmt.Sprintf("vacuity probe %s answered %s: the path is dead under the contract's assumptions", o.ID, o.Result))
+			default:
+				// the solver session broke off (killed, out of time as a whole): the probe is undecided,
+				// which is no evidence of a dead path - only a refutation is
+				c.Notes = append(c.Notes, fmt.Sprintf("vacuity probe %s undecided (%s)", o.ID, o.Result))
 			}
 			continue
 		}
@@ -864,6 +870,108 @@ func (c *Checker) ifaceTypeObligations() {
 		}
 		if holder != nil {
 			c.addStruct(holder, "frame", "iface-types-scan:"+k, holder.f.Pos(), true, fmt.Sprintf("%d conversions to %s in the program, all from %s", n, k, strings.Join(w.CS.IfaceTypes[k], ", ")))
+		}
+	}
+}
+
+// invariantWriters (declaration closure): what a type declaration says about a field - an invariant,
+// "never nil", "no nil values / elements", "guarded by this lock" - is assumed wherever an encoded
+// function reads the field. That is only sound if every function of the program that writes the field
+// (or into a container loaded from it), and for guarded fields every function that touches it at all,
+// is held to the declaration too. Such functions that are not under contract for this property are
+// therefore encoded as well, for exactly those obligations (inv:type / nonnil / vals-nonnil /
+// nonnil-elems, lock:guard).
+func (c *Checker) invariantWriters() {
+	if onlyRe != nil {
+		return
+	}
+	encoded := map[string]bool{}
+	for _, e := range c.Encs {
+		encoded[e.key] = true
+	}
+	classOK := func(cl string) bool { return c.Prop.Classes == nil || c.Prop.Classes.MatchString(cl) }
+	var keys []string
+	for k := range c.W.CS.Types {
+		keys = append(keys, k)
+	}
+	sort.Strings(keys)
+	filter := func(o *Obl) bool {
+		switch o.Class {
+		case "inv":
+			for _, p := range []string{"type:", "nonnil:", "vals-nonnil:", "nonnil-elems:"} {
+				if strings.HasPrefix(o.Label, p) {
+					return classOK(o.Class + ":" + o.Label)
+				}
+			}
+		case "lock":
+			return strings.HasPrefix(o.Label, "guard:") && classOK(o.Class+":"+o.Label)
+		case "escape":
+			return classOK(o.Class + ":" + o.Label)
+		}
+		return false
+	}
+	for round := 0; round < 4; round++ {
+		added := false
+		for _, k := range keys {
+			td := c.W.CS.Types[k]
+			wf := invWriterFields(td)
+			for _, f := range td.Nonnil {
+				wf[f] = true
+			}
+			for _, f := range td.ValsNonnil {
+				wf[f] = true
+			}
+			if td.NonnilElemsField != "" {
+				wf[td.NonnilElemsField] = true
+			}
+			af := map[string]bool{}
+			if classOK("lock:guard:") || classOK("escape:guarded-container:") {
+				for f := range td.GuardedBy {
+					af[f] = true
+				}
+			}
+			if len(wf) == 0 && len(af) == 0 {
+				continue
+			}
+			all := map[string]bool{}
+			for f := range wf {
+				all[f] = true
+			}
+			for f := range af {
+				all[f] = true
+			}
+			// relied on: an encoded function touches one of the declared fields
+			relied := false
+			for _, e := range c.Encs {
+				if e.f != nil && e.f.Blocks != nil && touchesField(e.f, td, all, false) {
+					relied = true
+					break
+				}
+			}
+			if !relied {
+				continue
+			}
+			for _, f := range c.W.FuncList {
+				if f.Blocks == nil || f.Pkg == nil || !c.W.InRepo[f.Pkg] || encoded[funcKey(f)] {
+					continue
+				}
+				if strings.HasSuffix(c.W.Fset.Position(f.Pos()).Filename, "_test.go") {
+					continue
+				}
+				if !(touchesField(f, td, wf, true) || touchesField(f, td, af, false)) {
+					continue
+				}
+				if fc := c.W.CS.Funcs[funcKey(f)]; fc != nil && fc.Trusted {
+					c.Notes = append(c.Notes, fmt.Sprintf("%s touches declared fields of %s and is trusted: its keeping the declaration is an assumption", funcKey(f), k))
+					continue
+				}
+				encoded[funcKey(f)] = true
+				added = true
+				c.addFunc(f, filter)
+			}
+		}
+		if !added {
+			break
 		}
 	}
 }
